@@ -173,7 +173,8 @@ pub fn run_case(rep: &mut Report, case: &Case, verbose: bool) {
                     sim.nodes[idx].muted = true;
                 }
             }
-            sim.run_until(sim.now + 8 * max_i);
+            let max_d = case.cfg.ports.iter().map(|p| interval_ns(p.log_delay)).max().unwrap_or(1_000_000_000);
+            sim.run_until(sim.now + (8 * max_i).max(4 * max_d));
             bail_on_panic!();
             rep.ev("recovery_window");
         }
@@ -253,7 +254,9 @@ pub fn run_case(rep: &mut Report, case: &Case, verbose: bool) {
         }
         let p0 = &case.cfg.ports[0];
         let eligible = !case.peers.is_empty() && case.peers[0].on_port == 0 && !case.peers[0].slave_only && case.peers[0].p1 < case.cfg.p1 && !p0.master_only && case.cfg.class >= 128 && p0.aml != 2;
-        let tb = (2 * rt + 8) * max_i;
+        // a port that is still disabled by a peer-delay fault first needs one clean exchange, which
+        // takes up to two (randomised) peer delay request intervals
+        let tb = (2 * rt + 8) * max_i + if p0.p2p { 4 * interval_ns(p0.log_delay) } else { 0 };
         sim.run_until(sim.now + tb);
         bail_on_panic!();
         rep.ev("continuation_master");
@@ -305,7 +308,8 @@ fn gen_case(rng: &mut StdRng) -> Case {
         .map(|_| PortSpec {
             p2p: rng.gen_bool(0.4),
             master_only: !slave_only && rng.gen_bool(0.1),
-            log_announce: [-1i8, 0][rng.gen_range(0..2)],
+            // mixed announce intervals on one instance (the BMCA then runs at the shortest one)
+            log_announce: [-1i8, 0, 0, -3, 1][rng.gen_range(0..5)],
             log_sync: [-2i8, 0][rng.gen_range(0..2)],
             log_delay: [-1i8, 0][rng.gen_range(0..2)],
             receipt_timeout: [2u8, 3][rng.gen_range(0..2)],
